@@ -286,10 +286,12 @@ func (fc *fnCtx) callSiteAsserts(st *State, callee *ssa.Function, ordKey string,
 
 func (fc *fnCtx) siteAsserts(st *State, name, ordKey string, args []Val) {
 	k := fc.top.callOrd[name]
+	nth := 0
 	for ci, cs := range fc.contract.Calls {
 		if cs.Callee != name || (cs.K != 0 && cs.K != k) {
 			continue
 		}
+		nth++
 		fc.top.boundCalls[ci] = true
 		extra := map[string]Val{}
 		for i, a := range args {
@@ -302,7 +304,11 @@ func (fc *fnCtx) siteAsserts(st *State, name, ordKey string, args []Val) {
 			fc.specError(cs.Assert, err)
 			continue
 		}
-		fc.oblige(st, "call-assert", "call-"+ordKey+"-assert", g, "call-site assertion: "+cs.Assert.Text, token.NoPos, true)
+		oname := "call-" + ordKey + "-assert"
+		if nth > 1 {
+			oname = fmt.Sprintf("%s%d", oname, nth)
+		}
+		fc.oblige(st, "call-assert", oname, g, "call-site assertion: "+cs.Assert.Text, token.NoPos, true)
 		fc.assume(st, g)
 	}
 }
